@@ -6,10 +6,17 @@ Three stages, all judged by TLC:
  1. markup -> Text canvas: generated nested markup over position-unique characters (wide, multi-byte, DEC line drawing, zero
     width; str and bytes; utf-8 / euc-jp / iso8859-1) x widths x wrap x align; every character of every rendered row is
     recorded with its attribute and traced back to its source position.
+ 1b. the rendered rows clipped on the left / right at every column (Canvas.content(trim_left, cols), pad_trim_left_right with
+    negative amounts, an Overlay window, Padding(width='clip')): every column keeps its attribute, the blank that remains of
+    a double-width character cut by an edge carries that character's attribute.
  2. chains of AttrMap / AttrWrap / fill_attr / fill_attr_apply at three nesting levels (around the text, around its
     Padding, around the Filler) x focus on/off; cells before and after.
- 3. real raw_display.Screen with palettes of every entry form at colours {1,16,88,256,2^24} x bright-is-bold; the bytes it
-    writes are tokenised (vf/term.py) and decoded by the TLA+ terminal; TLC resolves the palette itself.
+ 2b. histories: one widget stack (optionally with a one-child Pile / Columns inside) lives through renderings (of the whole
+    and of inner widgets on their own), map changes through every setter, re-reading of canvases that are still held and
+    maps applied to copies of held canvases; the chain of maps is state of the trace specification.
+ 3. real raw_display.Screen with palettes of every entry form at colours {1,16,88,256,2^24} x bright-is-bold, hexadecimal
+    '#rrggbb' / '#rgb' high colours with arbitrary digits, AttrSpec objects as attributes; the bytes it writes are tokenised
+    (vf/term.py) and decoded by the TLA+ terminal; TLC resolves the palette (and the hexadecimal colours per depth) itself.
 Nothing is decided here: the Python side renders, records and reports what TLC rejected."""
 from __future__ import annotations
 
@@ -30,7 +37,9 @@ ALIGNS = ["left", "center", "right"]
 NAMES = [None, "a1", 7, ("t", 1)]
 # further names used on the display stage only
 N_ALIAS, N_ALIAS2, N_UNDEF = "like-a1", ("alias", 2), "nope"
-ALL_NAMES = [*NAMES, N_ALIAS, N_ALIAS2, N_UNDEF]
+# two cells attributes that are AttrSpec objects (given directly in the markup, not through the palette) when the trace has them
+N_SPEC1, N_SPEC2 = "<AttrSpec 1>", "<AttrSpec 2>"
+ALL_NAMES = [*NAMES, N_ALIAS, N_ALIAS2, N_UNDEF, N_SPEC1, N_SPEC2]
 NAME_ID = {n: i for i, n in enumerate(ALL_NAMES)}
 
 # position-unique characters per encoding mode (spaces and newlines may repeat: they are traced through the layout)
@@ -164,8 +173,9 @@ def rand_text(rng, mode, as_bytes, n, zero_ok=True):
 SPLIT = 98     # pseudo attribute: the bytes of one character lie in runs with different attributes
 
 
-def content_chars(row, enc):
-    """one canvas content row -> [(code point, attribute id)] per character (not per column).
+def content_chars(row, enc, widths=False):
+    """one canvas content row -> [(code point, attribute id)] per character (not per column); with widths=True
+    [(code point, attribute id, screen columns)].
     The row's bytes are decoded as a whole, so a glyph never depends on where the runs are cut; a character whose
     bytes carry different attributes is reported with the pseudo attribute SPLIT."""
     data, attrs, css = b"", [], []
@@ -180,10 +190,20 @@ def content_chars(row, enc):
         if ch == "\ufffd":      # undecodable byte(s): resynchronise on the next decodable position is the codec's business
             n = max(1, _bad_len(data, o, enc))
         mine = set(attrs[o:o + n])
+        wdt = 1 if css[o] == "0" else term.char_width(ch) if enc == "utf-8" else n
         if css[o] == "0" and n == 1:
             ch = term.DEC_OF_ALT.get(ch, ch)
-        out.append((ord(ch), attrs[o] if len(mine) == 1 else SPLIT))
+        out.append((ord(ch), attrs[o] if len(mine) == 1 else SPLIT, wdt) if widths else (ord(ch), attrs[o] if len(mine) == 1 else SPLIT))
         o += n
+    return out
+
+
+def content_cols(row, enc):
+    """one canvas content row -> [[code point, attribute id, part]] per screen column (part: 0 narrow, 1 / 2 the halves of
+    a double-width character); characters without a column of their own are left out."""
+    out = []
+    for g, a, wdt in content_chars(row, enc, True):
+        out += [[g, a, 0]] if wdt == 1 else [[g, a, 1], [g, a, 2]] if wdt == 2 else []
     return out
 
 
@@ -282,6 +302,112 @@ def text_trace(mode, as_bytes, node, variants):
                 ev.append({"t": "rexc", "width": width, "wrap": wrap, "align": align, "exc": type(ex).__name__,
                            "msg": str(ex)[:120]})
     return {"w": 1, "h": 1, "stage": "text", "mode": mode, "bytes": bool(as_bytes), "markup": node, "ulen": ulen, "ev": ev}
+
+
+# ---- stage 1b: rendered text clipped on the left / right at every column -------------------------------------------------
+def _positions(chars, as_bytes, enc):
+    ulen = [len(c.encode(enc)) if as_bytes else 1 for c in chars]
+    starts, inside = {}, {}
+    o = 0
+    for i, u in enumerate(ulen):
+        starts[o] = i + 1
+        for q in range(o, o + u):
+            inside[q] = i + 1
+        o += u
+    starts[o] = inside[o] = len(chars) + 1
+    return ulen, lambda off, exact=True: (starts if exact else inside).get(off, 0)
+
+
+def trim_cuts(urwid, w, canv, width, nrows, enc, pick):
+    """Every way this harness knows to show columns [left, left+cols) of a rendered Text: -> list of cuts
+    {how, y, left, cols, cells}.  `pick(left, cols, how)` thins the (left, cols) pairs out."""
+    from urwid.canvas import CompositeCanvas
+
+    cuts = []
+
+    def add(how, left, cols, rows):
+        for y, r in enumerate(rows):
+            cuts.append({"how": how, "y": y + 1, "left": left, "cols": cols, "cells": r})
+
+    for left in range(width):
+        for cols in range(1, width - left + 1):
+            if (left, cols) == (0, width):
+                continue
+            if pick(left, cols, "content"):
+                # 1. Canvas.content(trim_left, cols) of the Text canvas itself
+                add("content", left, cols, [content_cols(r, enc) for r in canv.content(trim_left=left, cols=cols)])
+            if pick(left, cols, "pad_trim"):
+                # 2. CompositeCanvas.pad_trim_left_right with negative amounts
+                cc = CompositeCanvas(canv)
+                cc.pad_trim_left_right(-left, -(width - left - cols))
+                add("pad_trim_left_right", left, cols, [content_cols(r, enc) for r in cc.content()])
+            if 0 < cols < width and pick(left, cols, "overlay"):
+                # 3. a window over columns [left, left+cols): what stays visible to its left and to its right
+                ov = urwid.Overlay(urwid.SolidFill("T"), urwid.Filler(w, "top"), ("fixed left", left), cols, ("fixed top", 0), nrows)
+                rows = [content_cols(r, enc) for r in ov.render((width, nrows)).content()]
+                if left > 0:
+                    add("overlay_left_of_window", 0, left, [r[:left] for r in rows])
+                if left + cols < width:
+                    add("overlay_right_of_window", left + cols, width - left - cols, [r[left + cols:] for r in rows])
+    return cuts
+
+
+def trim_trace(mode, as_bytes, node, variants, thin):
+    """One markup; for each (width, wrap, align): the rendered rows (every column traced back to its source character, as in
+    text_trace) and the same rows clipped on the left and on the right at every column by the real clipping paths.
+    width 0 = the width the text packs to (then Padding(width='clip') is one of the paths)."""
+    import urwid
+
+    enc = MODES[mode]
+    chars = [chr(c) for c in _text_of(node)]
+    ev = []
+    with Enc(mode), warnings.catch_warnings():
+        warnings.simplefilter("ignore")
+        py = to_python(node, None, as_bytes, enc)
+        ulen, pos_of = _positions(chars, as_bytes, enc)
+        for width, wrap, align in variants:
+            try:
+                w = urwid.Text(py, wrap=wrap, align=align)
+                text = w.get_text()[0]
+                packed = width == 0
+                if packed:
+                    width = w.pack(())[0]
+                    if width < 2:
+                        continue
+                canv = w.render((width,))
+                trans = w.get_line_translation(width)
+            except Exception as ex:  # noqa: BLE001     (raised by the layout: C03's subject, as in text_trace)
+                ev.append({"t": "rexc", "width": width, "wrap": wrap, "align": align, "exc": type(ex).__name__, "msg": str(ex)[:120]})
+                continue
+            try:
+                base = []
+                for line, row in zip(trans, canv.content()):
+                    cc = content_chars(row, enc, True)
+                    hh = line_hints(line, text, width, enc, pos_of)
+                    if len(hh) < len(cc):
+                        hh += [("?", 0)] * (len(cc) - len(hh))
+                    cols = []
+                    for i, (g, a, wdt) in enumerate(cc):
+                        cols += [[g, a, hh[i][0], hh[i][1], part] for part in ((0,) if wdt == 1 else (1, 2) if wdt == 2 else ())]
+                    base.append(cols)
+                k = thin + len(ev)
+                cuts = trim_cuts(urwid, w, canv, width, len(base), enc,
+                                 (lambda l, c, how: True) if thin < 0 else
+                                 (lambda l, c, how, k=k: how == "content" or (l + c + k + (how == "overlay")) % 2 == 0))
+                if packed:
+                    # 4. Padding(width='clip'): the text at its own width, clipped to the columns available
+                    for cols in range(1, width):
+                        for al in ALIGNS:
+                            pad = urwid.Padding(w, align=al, width="clip")
+                            left = -pad.padding_values((cols,), False)[0]
+                            if left >= 0:
+                                for y, r in enumerate(pad.render((cols,)).content()):
+                                    cuts.append({"how": "padding_clip", "y": y + 1, "left": left, "cols": cols, "cells": content_cols(r, enc)})
+                ev.append({"t": "trim", "width": width, "wrap": wrap, "align": align, "packed": packed, "base": base, "cuts": cuts})
+            except Exception as ex:  # noqa: BLE001
+                ev.append({"t": "exc", "where": "trim", "width": width, "wrap": wrap, "align": align, "exc": type(ex).__name__,
+                           "msg": str(ex)[:120]})
+    return {"w": 1, "h": 1, "stage": "trim", "mode": mode, "bytes": bool(as_bytes), "markup": node, "ulen": ulen, "ev": ev}
 
 
 def _text_of(node):
@@ -421,6 +547,208 @@ def maps_trace(mode, node, wrap, align, tw, geom, cases):
             "geom": list(geom), "ev": ev}
 
 
+# ---- stage 2b: histories: maps changed between renderings while earlier canvases are still held ----------------------------
+WRAPPERS = ["none", "pile", "columns"]
+SET_OPS = {"AttrMap": ["set_attr_map", "attr_map=", "set_focus_map", "focus_map=", "set_focus_map(None)"],
+           "AttrWrap": ["set_attr", "attr=", "set_focus_attr", "focus_attr=", "set_attr_map", "set_focus_map", "set_focus_attr(None)"]}
+SET_OPS["AttrMap1"] = SET_OPS["AttrMap"]
+
+
+def build_hist_stack(urwid, py, wrap, align, geom, chain, wrapper):
+    """As build_stack, with an optional one-child Pile / Columns between the Padding and the maps around it (same geometry,
+    another kind of composite canvas).  -> (top widget, [the map widget of each chain element], [text, padding level, filler])"""
+    left, right, top, bottom = geom
+    elems = []
+    w = text = urwid.Text(py, align=align, wrap=wrap)
+    for el in chain:
+        if el["lvl"] == 0:
+            w = wrap_widget(urwid, w, el)
+            elems.append(w)
+    w = urwid.Padding(w, align="left", width=("relative", 100), left=left, right=right)
+    if wrapper == "pile":
+        w = urwid.Pile([w])
+    elif wrapper == "columns":
+        w = urwid.Columns([w])
+    mid = w
+    for el in chain:
+        if el["lvl"] == 1:
+            w = wrap_widget(urwid, w, el)
+            elems.append(w)
+    w = fill = urwid.Filler(w, valign="top", height="pack", top=top, bottom=bottom)
+    for el in chain:
+        if el["lvl"] == 2:
+            w = wrap_widget(urwid, w, el)
+            elems.append(w)
+    return w, elems, [text, mid, fill]
+
+
+def apply_set(el, w, how, arg):
+    """Change the map widget w (chain element el) through its public API; el is updated to what the documentation says the
+    widget now does.  arg: list of pairs (a map), an attribute id, or None."""
+    if how in ("set_attr_map", "attr_map="):
+        if how == "set_attr_map":
+            w.set_attr_map(py_map(arg))
+        else:
+            w.attr_map = py_map(arg)
+        el["amap"] = [list(p) for p in arg]
+        return "amap"
+    if how in ("set_focus_map", "focus_map="):
+        if how == "set_focus_map":
+            w.set_focus_map(py_map(arg))
+        else:
+            w.focus_map = py_map(arg)
+        el["hasf"], el["fmap"] = True, [list(p) for p in arg]
+        return "fmap"
+    if how == "set_focus_map(None)":          # "If None this widget will use the attr mapping instead (no change when in focus)"
+        w.set_focus_map(None)
+        el["hasf"], el["fmap"] = False, []
+        return "fmap"
+    if how in ("set_attr", "attr="):
+        if how == "set_attr":
+            w.set_attr(NAMES[arg])
+        else:
+            w.attr = NAMES[arg]
+        el["amap"] = [[0, arg]]
+        return "amap"
+    if how in ("set_focus_attr", "focus_attr="):
+        if how == "set_focus_attr":
+            w.set_focus_attr(NAMES[arg])
+        else:
+            w.focus_attr = NAMES[arg]
+        el["hasf"], el["fmap"] = True, [[0, arg]]
+        return "fmap"
+    if how == "set_focus_attr(None)":         # "If None this widget will use the attr instead (no change when in focus)"
+        w.set_focus_attr(None)
+        el["hasf"], el["fmap"] = False, []
+        return "fmap"
+    raise ValueError(how)
+
+
+def hist_trace(mode, node, wrap, align, tw, geom, wrapper, chain0, ops):
+    """One widget stack that lives through a sequence of operations:
+      hrender  render it (or, upto < len(chain): the widget inside chain element upto+1, on its own) and KEEP the canvas
+      set      change the maps of one element through the public API
+      reread   read a kept canvas again
+      apply    CompositeCanvas(kept canvas).fill_attr_apply(map) / .fill_attr(a): a new canvas, kept as well
+      forget   drop the kept canvases (the canvas cache lets go of them)
+    TLC keeps the chain and what each kept canvas must show (AttrFlowTrace.tla: hist)."""
+    import urwid
+    from urwid.canvas import CompositeCanvas
+
+    enc = MODES[mode]
+    left, right, top, bottom = geom
+    ev = []
+    chain = [dict(e, amap=[list(p) for p in e["amap"]], fmap=[list(p) for p in e["fmap"]]) for e in chain0]
+    with Enc(mode), warnings.catch_warnings():
+        warnings.simplefilter("ignore")
+        py = to_python(node, None, False, enc)
+        inner_rows = urwid.Text(py, align=align, wrap=wrap).rows((tw,))
+        cols = left + tw + right
+        sizes = [(tw,), (cols,), (cols, top + inner_rows + bottom + 1)]
+        plain = build_hist_stack(urwid, py, wrap, align, geom, [], wrapper)[2]
+        before = [column_cells(plain[g].render(sizes[g], False), enc) for g in range(3)]
+        topw, elems, _ = build_hist_stack(urwid, py, wrap, align, geom, chain, wrapper)
+        held = []           # (canvas, geometry level): kept alive like the canvas a screen is still showing
+        alive = []
+
+        def cells_of(canv, g):
+            after = column_cells(canv, enc)
+            cells = []
+            for y, (rb, ra) in enumerate(zip(before[g], after)):
+                for x, (cb, ca) in enumerate(zip(rb, ra)):
+                    if g == 0:
+                        lvl = 0
+                    elif g == 1:
+                        lvl = 1 if (x < left or x >= left + tw) else 0
+                    else:
+                        lvl = 2 if (y < top or y >= top + inner_rows) else 1 if (x < left or x >= left + tw) else 0
+                    cells.append([cb[0], cb[1], lvl, ca[0], ca[1]])
+            if not (len(before[g]) == len(after) and all(len(a) == len(b) for a, b in zip(before[g], after))):
+                cells.append([0, 0, 0, 1, 0])     # shapes differ: TLC rejects (maps_leave_the_text_alone)
+            return cells
+
+        for op in ops:
+            try:
+                if op["op"] == "hrender":
+                    u = min(op["upto"], len(chain))
+                    if u == len(chain):
+                        wdg, g = topw, 2
+                    else:
+                        wdg, g = elems[u].original_widget, chain[u]["lvl"]
+                    canv = wdg.render(sizes[g], op["focus"])
+                    held.append((canv, g))
+                    alive.append(len(held) - 1)
+                    ev.append({"t": "hrender", "focus": bool(op["focus"]), "upto": u, "cells": cells_of(canv, g),
+                               "kinds": [e["kind"] for e in chain[:u]]})
+                elif op["op"] == "set":
+                    j = op["j"] % len(chain)
+                    which = apply_set(chain[j], elems[j], op["how"], op["arg"])
+                    el = chain[j]
+                    ev.append({"t": "set", "j": j + 1, "which": which, "hasf": bool(el["hasf"]),
+                               "map": el["amap"] if which == "amap" else el["fmap"], "how": f"{el['kind'].rstrip('1')}.{op['how']}"})
+                elif op["op"] == "reread" and alive:
+                    i = alive[op["i"] % len(alive)]
+                    ev.append({"t": "reread", "i": i + 1, "cells": cells_of(*held[i])})
+                elif op["op"] == "apply" and alive:
+                    i = alive[op["i"] % len(alive)]
+                    canv = CompositeCanvas(held[i][0])
+                    if op["how"] == "fill_attr":
+                        canv.fill_attr(NAMES[op["arg"][0][1]])
+                    else:
+                        canv.fill_attr_apply(py_map(op["arg"]))
+                    held.append((canv, held[i][1]))
+                    alive.append(len(held) - 1)
+                    ev.append({"t": "apply", "i": i + 1, "amap": [list(p) for p in op["arg"]], "how": op["how"],
+                               "cells": cells_of(canv, held[i][1])})
+                elif op["op"] == "forget":
+                    for i in alive:
+                        held[i] = (None, held[i][1])
+                    alive = []
+            except Exception as ex:  # noqa: BLE001
+                ev.append({"t": "exc", "where": "hist:" + op["op"], "exc": type(ex).__name__, "msg": str(ex)[:120]})
+                break
+    return {"w": 1, "h": 1, "stage": "maps", "hist": True, "mode": mode, "markup": node, "wrap": wrap, "align": align, "tw": tw,
+            "geom": list(geom), "wrapper": wrapper, "kinds0": [e["kind"] for e in chain0],
+            "chain0": [{"amap": e["amap"], "hasf": e["hasf"], "fmap": e["fmap"], "lvl": e["lvl"]} for e in chain0],
+            "chain0k": chain0, "ops": ops, "ev": ev}
+
+
+def rand_hist_ops(rng, chain, n):
+    ops = [{"op": "hrender", "focus": rng.random() < 0.4, "upto": len(chain)}]
+    for _ in range(n - 1):
+        r = rng.random()
+        if r < 0.4:
+            top = rng.random() < 0.65
+            ops.append({"op": "hrender", "focus": rng.random() < 0.4, "upto": len(chain) if top else rng.randrange(len(chain))})
+        elif r < 0.72:
+            j = rng.randrange(len(chain))
+            how = rng.choice(SET_OPS[chain[j]["kind"]])
+            if how.endswith("(None)") and rng.random() < 0.5:
+                how = SET_OPS[chain[j]["kind"]][0]
+            arg = None if how.endswith("(None)") else rng.randrange(len(NAMES)) if how in ("set_attr", "attr=", "set_focus_attr", "focus_attr=") \
+                else rand_map(rng, small=rng.random() < 0.3)
+            if how in ("set_focus_attr", "focus_attr=") and arg == 0:
+                arg = 1                      # focus_attr None means "no focus attribute": that is the (None) operation
+            ops.append({"op": "set", "j": j, "how": how, "arg": arg})
+            if rng.random() < 0.5:           # ... and look at the result (in focus, when it was the focus map that changed)
+                ops.append({"op": "hrender", "focus": rng.random() < (0.85 if "focus" in how else 0.3),
+                            "upto": len(chain) if rng.random() < 0.8 else rng.randrange(j, len(chain))})
+        elif r < 0.87:
+            ops.append({"op": "reread", "i": rng.randrange(8)})
+        elif r < 0.97:
+            fa = rng.random() < 0.3
+            ops.append({"op": "apply", "i": rng.randrange(8), "how": "fill_attr" if fa else "fill_attr_apply",
+                        "arg": [[0, rng.randrange(len(NAMES))]] if fa else rand_map(rng)})
+        else:
+            ops.append({"op": "forget"})
+    return ops
+
+
+def rand_widget_chain(rng):
+    n = rng.choice([1, 2, 2, 2, 3, 3])
+    return [rand_element(rng, lv) for lv in sorted(rng.randrange(3) for _ in range(n))]
+
+
 def rand_chain(rng):
     n = rng.choice([1, 1, 2, 2, 2, 3, 3, 3])
     lvls = sorted(rng.randrange(3) for _ in range(n))
@@ -455,22 +783,61 @@ def _large_h(desc):
     return d.startswith("h") and d[1:].isdigit() and int(d[1:]) > 15
 
 
+HEXD = "0123456789abcdefABCDEF"
+
+
+def hex_colour(desc):
+    """A colour written as hexadecimal RGB -> its digits as data; which terminal colour that is at a given depth is decided by
+    TLC (AttrFlowOps.tla: HexColourAt).  Anything else -> kind "n": a name / colour number looked up in vf/term.py's table."""
+    col = (desc or "").split(",")[0].strip()
+    if col.startswith("#") and all(c in HEXD for c in col[1:]):
+        if len(col) == 7:
+            return {"k": "x6", "r": int(col[1:3], 16), "g": int(col[3:5], 16), "b": int(col[5:7], 16)}
+        if len(col) == 4:
+            return {"k": "x3", "r": int(col[1], 16), "g": int(col[2], 16), "b": int(col[3], 16)}
+    return {"k": "n", "r": 0, "g": 0, "b": 0}
+
+
 def entry_record(name_id, fg, bg, mono, fgh, bgh):
-    """The palette entry as data for TLC: colour descriptions parsed into numbers per depth (vf/term.py, as C04);
-    which slot applies at which depth, the None fallbacks, aliases and undefined names are decided in AttrFlowOps.tla."""
+    """The palette entry as data for TLC: colour names and numbers parsed into numbers per depth (vf/term.py, as C04),
+    hexadecimal RGB colours as their digits; which slot applies at which depth, the None fallbacks, aliases, undefined names and
+    the terminal colour of a hexadecimal RGB description per depth are decided in AttrFlowOps.tla."""
     f, b, fl = term.spec_to_pen(fg, bg, 16)
     rec = {"name": name_id, "alias": False, "like": 0,
            "mono": term.spec_to_pen(mono or "default", "default", 1)[2],
            "fg": [f, fl], "bg": b, "hasfh": fgh is not None, "hasbh": bgh is not None,
-           "fgh": [], "bgh": [], "largeh": _large_h(fgh) or _large_h(bgh)}
+           "fgh": [], "bgh": [], "largeh": _large_h(fgh) or _large_h(bgh),
+           "fghc": hex_colour(fgh), "bghc": hex_colour(bgh)}
     for d in (88, 256, 2 ** 24):
         if fgh is not None and not (d == 88 and rec["largeh"]):
-            p = term.spec_to_pen(fgh, "default", d)
-            rec["fgh"].append([p[0], p[2]])
+            if rec["fghc"]["k"] == "n":
+                p = term.spec_to_pen(fgh, "default", d)
+                rec["fgh"].append([p[0], p[2]])
+            else:
+                rec["fgh"].append([0, sorted(term.FLAG[x] for x in _flags(fgh))])
         else:
             rec["fgh"].append([0, []])
-        rec["bgh"].append(term.colour_index(bgh, d) if bgh is not None and not (d == 88 and rec["largeh"]) else 0)
+        rec["bgh"].append(term.colour_index(bgh, d) if bgh is not None and rec["bghc"]["k"] == "n"
+                          and not (d == 88 and rec["largeh"]) else 0)
     return rec
+
+
+def rand_hex(rng):
+    """'#rrggbb' / '#rgb' with arbitrary digits (the two digits of a component mostly differ)"""
+    if rng.random() < 0.7:
+        return "#" + "".join(rng.choice("0123456789abcdef") + rng.choice("0123456789abcdefACF") for _ in range(3))
+    return "#" + "".join(rng.choice("0123456789abcdefBD") for _ in range(3))
+
+
+def rand_high(rng, fg):
+    """a foreground_high / background_high value: None, one of the fixed forms, or hexadecimal RGB"""
+    r = rng.random()
+    if r < 0.45:
+        return rng.choice(FGH if fg else BGH)
+    h = rand_hex(rng)
+    if fg and rng.random() < 0.3:
+        h += rng.choice([",bold", ",italics", ",underline,standout", ", strikethrough"])
+    return h
 
 
 def alias_record(name_id, like_id):
@@ -487,8 +854,8 @@ def rand_palette(rng):
         fg, bg = rng.choice(FG), rng.choice(BG)
         form = form or rng.choice([3, 4, 6, 6, 6])
         mono = rng.choice(MONO) if form >= 4 else None
-        fgh = rng.choice(FGH) if form == 6 else None
-        bgh = rng.choice(BGH) if form == 6 else None
+        fgh = rand_high(rng, True) if form == 6 else None
+        bgh = rand_high(rng, False) if form == 6 else None
         t = (ALL_NAMES[nid], fg, bg, mono, fgh, bgh)[:form]
         items.append(t)
         recs.append(entry_record(nid, fg, bg, mono, fgh, bgh))
@@ -514,7 +881,17 @@ def rand_palette(rng):
     return items, recs
 
 
-def frame_cells(canv, enc):
+def frame_cells(canv, enc, extra=None):
+    """extra: {attribute object: name id} for attributes that are not names (AttrSpec objects)"""
+    def aid(a):          # noqa: E306
+        if extra:
+            try:
+                if a in extra:
+                    return extra[a]
+            except TypeError:
+                pass
+        return globals()["aid"](a)
+
     rows = []
     for row in canv.content():
         cells = []
@@ -530,9 +907,20 @@ def frame_cells(canv, enc):
     return rows
 
 
-def display_trace(mode, depth, bib, bce, order, items, recs, rows_spec, how):
+def spec_object(urwid, depth, fg, bg, mono, fgh, bgh):
+    """The AttrSpec an application writes for a screen of `depth` colours from the same descriptions a palette entry takes."""
+    if depth == 1:
+        return urwid.AttrSpec(mono or "default", "default", 1)
+    if depth == 16:
+        return urwid.AttrSpec(fg, bg, 16)
+    return urwid.AttrSpec(fgh if fgh is not None else fg, bgh if bgh is not None else bg, depth)
+
+
+def display_trace(mode, depth, bib, bce, order, items, recs, rows_spec, how, specs=()):
     """rows_spec: list of rows; row = list of (char, name id).  `order`: palette registered before or after
-    set_terminal_properties.  `how`: 'list' = register_palette(list), 'entry' = register_palette_entry per item (+list for aliases)."""
+    set_terminal_properties.  `how`: 'list' = register_palette(list), 'entry' = register_palette_entry per item (+list for aliases).
+    specs: [name id, fg, bg, mono, fg_high, bg_high]: cells with that name id get an AttrSpec object as their attribute (its
+    record is in recs like a palette entry's: TLC resolves both the same way)."""
     import urwid
     from urwid.display import raw
 
@@ -567,22 +955,23 @@ def display_trace(mode, depth, bib, bce, order, items, recs, rows_spec, how):
                 scr.set_terminal_properties(colors=depth, bright_is_bold=bib)
                 register()
             scr._started = True
+            objs = {sp[0]: spec_object(urwid, depth, *sp[1:]) for sp in specs}
             # the canvas comes from real widgets: one Text per row inside a Pile
             texts = []
             for row in rows_spec:
-                mk = [(ALL_NAMES[a], ch) for ch, a in row]
+                mk = [(objs.get(a, ALL_NAMES[a]), ch) for ch, a in row]
                 texts.append(urwid.Text(mk, wrap="clip"))
             w = sum(term.char_width(ch) for ch, _ in rows_spec[0])
             canv = urwid.Pile(texts).render((w,))
             scr.draw_screen((w, len(rows_spec)), canv)
             ev += term.tokenize(out.getvalue())
-            ev.append({"t": "frame", "cells": frame_cells(canv, enc)})
+            ev.append({"t": "frame", "cells": frame_cells(canv, enc, {o: nid for nid, o in objs.items()})})
         except Exception as ex:  # noqa: BLE001
             ev.append({"t": "exc", "where": "display", "exc": type(ex).__name__, "msg": str(ex)[:120]})
             w = 1
     return {"w": w, "h": len(rows_spec), "stage": "palette", "mode": mode, "depth": depth, "bib": bool(bib), "bce": bool(bce),
             "order": order, "refreshed": bool(refreshed), "how": how, "pal": recs,
-            "items": [list(map(str, it)) for it in items], "rows_spec": [[[ch, a] for ch, a in r] for r in rows_spec], "ev": ev}
+            "items": [list(map(str, it)) for it in items], "specs": [list(sp) for sp in specs], "rows_spec": [[[ch, a] for ch, a in r] for r in rows_spec], "ev": ev}
 
 
 def rand_rows(rng, mode):
@@ -625,15 +1014,17 @@ def model_runs(quick):
     wrong reading) is also refuted by a model-checking run of its own, which must end with a counterexample."""
     if quick:
         return [
-            ("MC_all_laws", _cfg("tree+maps+focus", "TreeLaws MapLaws FocusLaws", n=3, tags="{1, 2}", mk=2), True),
+            ("MC_all_laws", _cfg("tree+maps+focus+hist", "TreeLaws MapLaws FocusLaws HistLaws", n=3, tags="{1, 2}", mk=2), True),
             ("MC_trees_depth2", _cfg("tree", "TreeLaws", n=4, d=2, tags="{0, 1, 2}"), True),
             ("MC_refute_inner_after_outer", _cfg("maps", "WrongOrder", mk=1), False),
+            ("MC_refute_map_written_into_shared_canvas", _cfg("hist", "WrongInPlace", mk=1), False),
         ]
     return [
         ("MC_trees_depth3_n5", _cfg("tree", "TreeLawsLite", n=5), True),
         ("MC_trees_depth3", _cfg("tree", "TreeLaws", n=4, tags="{0, 1, 2}"), True),
         ("MC_trees_depth2", _cfg("tree", "TreeLaws", n=5, d=2, tags="{0, 1, 2}"), True),
-        ("MC_maps_focus", _cfg("maps+focus", "MapLaws FocusLaws", mk=3), True),
+        ("MC_maps_focus", _cfg("maps+focus+hist", "MapLaws FocusLaws HistLaws", mk=3), True),
+        ("MC_refute_map_written_into_shared_canvas", _cfg("hist", "WrongInPlace", mk=1), False),
         ("MC_refute_outermost_tag_wins", _cfg("tree", "WrongOutermostWins", n=2), False),
         ("MC_refute_enclosing_tag_forgotten", _cfg("tree", "WrongForgetsEnclosing", n=2), False),
         ("MC_refute_runs_shifted_by_one", _cfg("tree", "WrongShiftedRuns", n=2), False),
@@ -645,8 +1036,11 @@ def model_runs(quick):
 
 def _sig(tr, e):
     sig = {"stage": tr["stage"], "mode": tr["mode"]}
-    if tr["stage"] == "text":
+    if tr["stage"] in ("text", "trim"):
         sig.update(bytes=tr["bytes"], wrap=e.get("wrap", ""), align=e.get("align", ""), event=e["t"])
+    elif tr.get("hist"):
+        sig.update(history=True, event=e["t"], focus=e.get("focus", False), kinds=",".join(sorted(set(tr["kinds0"]))),
+                   chain_len=len(tr["kinds0"]), wrapper=tr["wrapper"])
     elif tr["stage"] == "maps":
         sig.update(focus=e.get("focus", False), kinds=",".join(sorted(set(e.get("kinds", [])))), chain_len=len(e.get("kinds", [])))
     else:
@@ -660,6 +1054,7 @@ NOT_THIS_PROPERTY = {
     "cell_traces_to_a_source_character": "a displayed glyph is not the source character the layout names: text, not attributes",
     "terminal_shows_the_canvas_text": "the terminal shows other text than the canvas: C04",
     "frame_size": "C04",
+    "clipped_row_has_the_requested_width": "a clipped canvas row has another width than asked for: geometry (C02), not attributes",
     "unknown_control_sequence": "C04",
 }
 
@@ -673,13 +1068,14 @@ def _handle(chk, traces, res, label):
             rp["tokens"] = tr["ev"][:l - 1][-40:]
         if why in NOT_THIS_PROPERTY:
             # the displayed *text* differs from the source text: the subject of C02/C03/C04, recorded but no alarm here
-            dec = tr["stage"] == "text" and ord(DECCH) in _text_of(tr["markup"])
+            dec = tr["stage"] in ("text", "trim") and ord(DECCH) in _text_of(tr["markup"])
             chk.divergence(f"{why}{' [line-drawing character in the text]' if dec else ''} ({NOT_THIS_PROPERTY[why]})",
                            {"sig": _sig(tr, e), "markup": tr.get("markup"), "event": e})
             continue
         chk.reject(f"C17.{why}", _sig(tr, e), rp)
 
 
+EXTRIM_TEXTS = {"utf8": [["字", "a", "界"], ["é", "語", "b", "界"]], "wide": [["字", "a", "界"], ["a", "漢", "語", "b"]]}
 EX_TEXTS = {"utf8": [["a", "字", "é"], ["é", " ", "界"]], "wide": [["字", "a", "界"]], "narrow": [["é", "a", "ü"]]}
 DISP_CFGS = [(m, d, b, o) for m in ("utf8", "wide", "narrow") for d in DEPTHS for b in (False, True)
              for o in ("props_first", "palette_first")]
@@ -713,6 +1109,35 @@ def shard(task):
             chars = rand_text(rng, mode, as_bytes, rng.randint(1, 8))
             node = rand_tree(rng, 3, chars)
             out.append(text_trace(mode, as_bytes, node, variants_for(rng, mode, chars, rng.random() < 0.3)))
+    elif kind.startswith("extrim:"):
+        # stage 1b, exhaustive: every assignment of {None, a1, 7} to the characters of a text with double-width characters, the
+        # text on one row at its own width, every (left, cols) through every clipping path
+        import itertools
+
+        mode = kind[7:]
+        for ti, chars in enumerate(EXTRIM_TEXTS[mode]):
+            if quick and ti > 0:
+                continue
+            for as_bytes in (False, True):
+                for tags in itertools.product((0, 1, 2), repeat=len(chars)):
+                    node = listn([tagn(t, leaf([c])) if t or rng.random() < 0.5 else leaf([c]) for t, c in zip(tags, chars)])
+                    out.append(trim_trace(mode, as_bytes, node, [(0, "clip", "left")], -1))
+    elif kind == "trim":
+        # stage 1b, random: markup as in stage 1, a few (width, wrap, align) each, clipped at every column
+        for i in range(first, first + count):
+            mode = ["utf8", "wide", "utf8", "wide", "narrow"][i % 5]
+            as_bytes = rng.random() < 0.4
+            chars = rand_text(rng, mode, as_bytes, rng.randint(2, 7), zero_ok=False)
+            node = rand_tree(rng, 2, chars)
+            cols = sum(term.char_width(c) if c not in "\n" else 0 for c in chars)
+            var = []
+            for width in {0, rng.randint(2, max(2, min(cols, 9))), rng.randint(2, max(2, min(cols + 2, 9)))}:
+                wrap = rng.choice(WRAPS)
+                align = rng.choice(ALIGNS)
+                if wrap == "ellipsis" and (mode == "wide" or (mode == "narrow" and align != "left")):
+                    wrap = "clip"            # see variants_for: the mark's layout is C03's subject
+                var.append((width, wrap, align))
+            out.append(trim_trace(mode, as_bytes, node, sorted(var), i if quick else -1))
     elif kind == "maps":
         for i in range(first, first + count):
             mode = ["utf8", "wide", "narrow"][i % 3]
@@ -729,25 +1154,67 @@ def shard(task):
                 for focus in (False, True):
                     cases.append((ch, focus))
             out.append(maps_trace(mode, node, wrap, rng.choice(ALIGNS), tw, geom, cases))
+    elif kind == "hist":
+        # stage 2b: one widget stack per trace, maps changed between renderings, canvases held
+        for i in range(first, first + count):
+            mode = ["utf8", "wide", "narrow"][i % 3]
+            chars = rand_text(rng, mode, False, rng.randint(1, 5), zero_ok=False)
+            chars = [c for c in chars if c != "\n"] or ["a"]
+            node = rand_tree(rng, 2, chars, allow_empty=False)
+            cols = sum(term.char_width(c) for c in chars)
+            tw = rng.randint(2, max(2, cols + 1))
+            geom = (rng.randint(0, 2), rng.randint(0, 1), rng.randint(0, 1), rng.randint(0, 1))
+            chain = rand_widget_chain(rng)
+            if i % 20 == 0:
+                # setter sweep: every way to change each element's maps, each followed by a rendering in focus and one without
+                chain = sorted(chain[:2] + [rand_element(rng, rng.randrange(3)) for _ in range(2)], key=lambda e: e["lvl"])
+                chain[rng.randrange(len(chain))]["kind"] = "AttrMap"
+                wi = rng.randrange(len(chain))
+                chain[wi].update(kind="AttrWrap", amap=[[0, rng.randrange(1, len(NAMES))]], hasf=True, fmap=[[0, rng.randrange(1, len(NAMES))]])
+                ops = [{"op": "hrender", "focus": False, "upto": len(chain)}]
+                order = list(range(len(chain)))
+                rng.shuffle(order)
+                for j in order:
+                    for how in SET_OPS[chain[j]["kind"]]:
+                        arg = None if how.endswith("(None)") else rng.randrange(1, len(NAMES)) if "attr_map" not in how and "focus_map" not in how \
+                            else rand_map(rng)
+                        ops += [{"op": "set", "j": j, "how": how, "arg": arg}, {"op": "hrender", "focus": True, "upto": len(chain)},
+                                {"op": "hrender", "focus": False, "upto": len(chain)}]
+                out.append(hist_trace(mode, node, "clip", "left", tw, geom, rng.choice(WRAPPERS), chain, ops))
+                continue
+            out.append(hist_trace(mode, node, rng.choice(["any", "space", "clip"]), rng.choice(ALIGNS), tw, geom, rng.choice(WRAPPERS),
+                                  chain, rand_hist_ops(rng, chain, rng.randint(4, 9) if quick else rng.randint(4, 14))))
     elif kind == "disp":
         for i in range(first, first + count):
             mode, depth, bib, order = DISP_CFGS[i % len(DISP_CFGS)]
             items, recs = rand_palette(rng)
+            specs = []
+            for nid in (NAME_ID[N_SPEC1], NAME_ID[N_SPEC2]):
+                if rng.random() < 0.45:
+                    fg, bg, mono = rng.choice(FG), rng.choice(BG), rng.choice(MONO)
+                    fgh, bgh = rand_high(rng, True), rand_high(rng, False)
+                    if _large_h(fgh) or _large_h(bgh):        # colour numbers above 87 cannot be written for 88 colours
+                        fgh = bgh = None
+                    specs.append([nid, fg, bg, mono, fgh, bgh])
+                    recs.append(entry_record(nid, fg, bg, mono, fgh, bgh))
             out.append(display_trace(mode, depth, bib, rng.random() < 0.5, order, items, recs, rand_rows(rng, mode),
-                                     rng.choice(["list", "entry"])))
+                                     rng.choice(["list", "entry"]), specs))
     return out
 
 
 def tasks_for(seed, quick):
-    n_rand, n_maps, n_disp = (320, 160, 360) if quick else (15000, 6000, 9000)
-    per = {"rand": 320 if quick else 1000, "maps": 160 if quick else 800, "disp": 360 if quick else 1500}
+    n_rand, n_trim, n_maps, n_hist, n_disp = (320, 120, 160, 200, 360) if quick else (15000, 4000, 6000, 8000, 9000)
+    per = {"rand": 320 if quick else 1000, "trim": 120 if quick else 500, "maps": 160 if quick else 800, "hist": 200 if quick else 1000,
+           "disp": 360 if quick else 1500}
     tasks = [(f"ex:{m}", seed * 7919 + j, 0, 0, quick) for j, m in enumerate(EX_TEXTS)]
+    tasks += [(f"extrim:{m}", seed * 7919 + 5 + j, 0, 0, quick) for j, m in enumerate(EXTRIM_TEXTS)]
     k = 10
-    for kind, n in (("rand", n_rand), ("maps", n_maps), ("disp", n_disp)):
+    for kind, n in (("rand", n_rand), ("trim", n_trim), ("maps", n_maps), ("hist", n_hist), ("disp", n_disp)):
         for first in range(0, n, per[kind]):
             tasks.append((kind, seed * 7919 + k, first, min(per[kind], n - first), quick))
             k += 1
-    return tasks, {"stage1_random_traces": n_rand, "stage2_traces": n_maps, "stage3_traces": n_disp}
+    return tasks, {"stage1_random_traces": n_rand, "stage1b_random_clipping_traces": n_trim, "stage2_traces": n_maps,
+                   "stage2b_history_traces": n_hist, "stage3_traces": n_disp}
 
 
 def build_traces(chk, quick, pool=None):
@@ -755,15 +1222,17 @@ def build_traces(chk, quick, pool=None):
     traces = []
     tasks, bounds = tasks_for(chk.seed, quick)
     results = pool.imap(shard, tasks) if pool is not None else map(shard, tasks)
-    n_ex = 0
+    n_ex = n_extrim = 0
     for task, part in zip(tasks, results):
         traces += part
         if task[0].startswith("ex:"):
             n_ex += len(part)
-            if quick and task[0] != "ex:narrow":
-                continue
+        if task[0].startswith("extrim:"):
+            n_extrim += len(part)
+        if quick and task[0] not in ("ex:narrow", "trim", "hist", "disp"):
+            continue          # quick tier: four validation calls (the start of a JVM costs more than the events)
         yield traces
-    chk.cov["bounds"] = {"stage1_exhaustive_traces": n_ex, **bounds}
+    chk.cov["bounds"] = {"stage1_exhaustive_traces": n_ex, "stage1b_exhaustive_clipping_traces": n_extrim, **bounds}
     yield traces
 
 
@@ -775,6 +1244,10 @@ def coverage(chk, traces):
 
     distinct = set()
     for tr in traces:
+        hstate = None
+        if tr.get("hist"):
+            bump("hist.traces")
+            bump("hist.wrapper_" + tr["wrapper"])
         for e in tr["ev"]:
             if e["t"] == "render":
                 bump("render")
@@ -790,6 +1263,39 @@ def coverage(chk, traces):
                     bump("render.wrapped_rows")
                 if len({c[1] for r in e["rows"] for c in r}) > 2:
                     distinct.add(json.dumps([tr["markup"], tr["mode"], tr["bytes"], e["width"], e["wrap"], e["align"]]))
+            elif e["t"] == "trim":
+                bump("trim")
+                bump("trim.cuts", len(e["cuts"]))
+                for how in {c["how"] for c in e["cuts"]}:
+                    bump(f"trim.{how}")
+                for c in e["cuts"]:
+                    b = e["base"][c["y"] - 1]
+                    if c["left"] + c["cols"] <= len(b):
+                        lo, hi = b[c["left"]], b[c["left"] + c["cols"] - 1]
+                        if lo[4] == 2:
+                            bump("trim.wide_character_cut_by_left_edge")
+                            nxt = b[c["left"] + 1] if c["left"] + 1 < len(b) else None
+                            if nxt is not None and nxt[1] != lo[1]:
+                                bump("trim.cut_by_left_edge_last_of_its_attribute_run")
+                        if hi[4] == 1:
+                            bump("trim.wide_character_cut_by_right_edge")
+                if len({c[1] for r in e["base"] for c in r}) > 1:
+                    distinct.add(json.dumps([tr["markup"], tr["mode"], tr["bytes"], e["width"], e["wrap"], e["align"], "trim"]))
+            elif e["t"] in ("hrender", "reread", "apply", "set"):
+                bump("hist." + e["t"])
+                if e["t"] == "set":
+                    bump("hist.set." + e["how"])
+                    if hstate:
+                        bump("hist.map_changed_after_a_rendering")
+                        hstate = "changed"
+                if e["t"] == "hrender":
+                    if hstate == "changed":
+                        bump("hist.rendered_again_after_a_map_change")
+                    hstate = "rendered"
+                    if e["upto"] < len(tr["chain0"]):
+                        bump("hist.inner_widget_rendered_on_its_own")
+                    if any(c[1] != c[4] for c in e["cells"]):
+                        distinct.add(json.dumps([tr["markup"], tr["chain0"], tr["ops"][:8], tr["geom"]]))
             elif e["t"] == "decomp":
                 bump("decomp")
             elif e["t"] == "maps":
@@ -810,7 +1316,18 @@ def coverage(chk, traces):
                     bump("frame.alias_name_shown")
                 if NAME_ID[N_UNDEF] in names:
                     bump("frame.undefined_name_shown")
+                if {sp[0] for sp in tr["specs"]} & names:
+                    bump("frame.attrspec_object_shown")
+                    bump(f"frame.attrspec_object_shown_at_depth_{tr['depth']}")
                 distinct.add(json.dumps([tr["items"], tr["rows_spec"], tr["depth"], tr["bib"], tr["order"]]))
+                if tr["depth"] in (88, 256, 2 ** 24):
+                    for rec in tr["pal"]:
+                        for c in (rec["fghc"], rec["bghc"]):
+                            if rec["name"] in names and not rec["alias"] and not (tr["depth"] == 88 and rec["largeh"]):
+                                if c["k"] == "x6" and any(v // 16 != v % 16 for v in (c["r"], c["g"], c["b"])):
+                                    bump(f"frame.rrggbb_with_unequal_digits_shown_at_depth_{tr['depth']}")
+                                elif c["k"] == "x3":
+                                    bump(f"frame.rgb_shown_at_depth_{tr['depth']}")
             elif e["t"] == "sgr":
                 bump("sgr")
             elif e["t"] in ("exc", "rexc"):
@@ -819,7 +1336,15 @@ def coverage(chk, traces):
     for need in ("render.ellipsis", "render.rows_with_kind_m", "render.rows_with_kind_h", "render.rows_with_kind_p", "render.bytes_text",
                  "render.multibyte_or_wide_shown", "render.wrapped_rows", "maps.chain_len_3", "maps.focus_map_in_force", "maps.fill_attr",
                  "maps.fill_attr_apply", "maps.AttrWrap", "frame.alias_name_shown", "frame.undefined_name_shown", "frame.depth_1",
-                 "frame.depth_88", "frame.depth_16777216", "frame.bib_True", "sgr"):
+                 "frame.depth_88", "frame.depth_16777216", "frame.bib_True", "sgr",
+                 "frame.rrggbb_with_unequal_digits_shown_at_depth_88", "frame.rrggbb_with_unequal_digits_shown_at_depth_256",
+                 "frame.rrggbb_with_unequal_digits_shown_at_depth_16777216", "frame.rgb_shown_at_depth_88", "frame.attrspec_object_shown_at_depth_88", "frame.attrspec_object_shown_at_depth_1",
+                 "trim.content", "trim.pad_trim_left_right", "trim.overlay_right_of_window", "trim.overlay_left_of_window", "trim.padding_clip",
+                 "trim.wide_character_cut_by_left_edge", "trim.cut_by_left_edge_last_of_its_attribute_run",
+                 "trim.wide_character_cut_by_right_edge", "hist.hrender", "hist.reread", "hist.apply",
+                 "hist.rendered_again_after_a_map_change", "hist.inner_widget_rendered_on_its_own", "hist.wrapper_pile", "hist.wrapper_columns",
+                 "hist.set.AttrMap.set_attr_map", "hist.set.AttrMap.set_focus_map", "hist.set.AttrWrap.set_attr",
+                 "hist.set.AttrWrap.set_focus_attr", "hist.set.AttrWrap.set_focus_attr(None)", "hist.set.AttrMap.set_focus_map(None)"):
         if not cnt.get(need):
             chk.vacuity.append("driver." + need)
 
@@ -885,10 +1410,14 @@ def run(chk):
     coverage(chk, traces)
     chk.cov["exhaustive"] = True
     chk.cov["rule"] = ("stage 1: every markup tree of depth <= 2 over 3 position-unique characters (str and bytes; utf-8, euc-jp, iso8859-1) x "
-                       "every width x wrap x align, plus seeded random trees of depth <= 3 over <= 8 characters; stage 2: random chains of <= 3 "
-                       "AttrMap/AttrWrap/fill_attr/fill_attr_apply at three nesting levels x focus; stage 3: random palettes (3/4/6-tuples, "
-                       "aliases, alias of alias, re-registration, None entry) x 5 depths x bright-is-bold x registration order x 3 encodings on a "
-                       "real raw_display.Screen; distinct = distinct (markup, configuration) with >= 2 attributes / a map that changes a cell / "
+                       "every width x wrap x align, plus seeded random trees of depth <= 3 over <= 8 characters; stage 1b: every assignment of 3 "
+                       "attributes to the characters of texts with double-width characters x every (left, cols) x 4 clipping paths, plus random "
+                       "markup x widths x wrap x align clipped at every column; stage 2: random chains of <= 3 "
+                       "AttrMap/AttrWrap/fill_attr/fill_attr_apply at three nesting levels x focus; stage 2b: random histories of <= 9 (quick) / 14 "
+                       "operations (render whole / inner widget, 12 setters, re-read, apply to a copy, forget) on stacks of <= 3 maps with held "
+                       "canvases, plus setter sweeps; stage 3: random palettes (3/4/6-tuples, "
+                       "aliases, alias of alias, re-registration, None entry, '#rrggbb' / '#rgb' with random digits, AttrSpec objects) x 5 depths x "
+                       "bright-is-bold x registration order x 3 encodings on a real raw_display.Screen; distinct = distinct (markup, configuration) with >= 2 attributes / a map that changes a cell / "
                        "distinct (palette, frame, depth)")
     s1 = next((t for t in traces if t["stage"] == "text" and len(t["ev"]) > 3 and depth_of(t["markup"]) >= 2), traces[0])
     chk.sample({"stage": "text", "mode": s1["mode"], "bytes": s1["bytes"], "markup": s1["markup"], "event": s1["ev"][min(5, len(s1["ev"]) - 1)]})
@@ -906,7 +1435,11 @@ def run(chk):
     chk.assumptions += ["attribute names are drawn from a small set of hashables (None, a str, an int, a tuple)",
                         "wrap='ellipsis' is not exercised in euc-jp and only left-aligned in iso8859-1 (layout defects recorded under C03)",
                         "exceptions raised by the layout are DIVERGENCE here (C03's subject)",
-                        "colour descriptions are limited to the forms vf/term.py parses (names, hN, #rrggbb on exact cube values); parsing is C18",
+                        "colour descriptions: names and hN through vf/term.py's table, '#rrggbb' / '#rgb' with any digits resolved per depth by TLC "
+                        "(AttrFlowOps.tla HexColourAt); gN / g#NN grays are not exercised; parsing is C18",
+                        "AttrSpec objects are drawn on a screen of the colour depth they were written for (mixed depths: C15/C04)",
+                        "stage 2b: a held canvas is compared with the chain of maps at the time it was rendered (kept by TLC), the unmapped "
+                        "cells come from a second, map-free stack of the same geometry",
                         "one frame on a fresh screen per palette (incremental redraw is C04)"]
 
 
@@ -918,6 +1451,11 @@ def replay(chk, path):
     if rp["stage"] == "text":
         var = [(e["width"], e["wrap"], e["align"])] if e["t"] == "render" else []
         tr = text_trace(t["mode"], t["bytes"], t["markup"], var)
+    elif rp["stage"] == "trim":
+        var = [(0 if e.get("packed") else e["width"], e["wrap"], e["align"])] if e["t"] in ("trim", "exc") and "wrap" in e else []
+        tr = trim_trace(t["mode"], t["bytes"], t["markup"], var, -1)
+    elif rp["stage"] == "maps" and t.get("hist"):
+        tr = hist_trace(t["mode"], t["markup"], t["wrap"], t["align"], t["tw"], tuple(t["geom"]), t["wrapper"], t["chain0k"], t["ops"])
     elif rp["stage"] == "maps":
         chain = [dict(c, kind=k) for c, k in zip(e.get("chain", []), e.get("kinds", []))]
         tr = maps_trace(t["mode"], t["markup"], t["wrap"], t["align"], t["tw"], tuple(t["geom"]), [(chain, e.get("focus", False))])
@@ -926,7 +1464,7 @@ def replay(chk, path):
         for it in t["items"]:
             items.append(tuple(_unstr(x) for x in it))
         rows = [[(ch, a) for ch, a in r] for r in t["rows_spec"]]
-        tr = display_trace(t["mode"], t["depth"], t["bib"], t["bce"], t["order"], items, t["pal"], rows, t["how"])
+        tr = display_trace(t["mode"], t["depth"], t["bib"], t["bce"], t["order"], items, t["pal"], rows, t["how"], t.get("specs", []))
     tv = [strip_for_tlc(tr)]
     res = tlc.validate("AttrFlowTrace", tv, jobs=1, timeout=300)
     chk.add_tv("replay", res)
